@@ -53,7 +53,7 @@ class Runner:
         pre = {}
         if self.preexisting:
             pre["out.log"] = b"PRE-EXISTING OUTPUT\n"
-            pre["key.file"] = common.b64(bytes(range(64))).encode()
+            pre["anonymongo.enc.key"] = common.b64(bytes(range(64))).encode()
             for n, c in pre.items():
                 with open(os.path.join(d, n), "wb") as f:
                     f.write(c)
@@ -61,7 +61,8 @@ class Runner:
         if "file" in on: args.append("in.log")
         if "out" in on: args += ["-o", "out.log"]
         if "enc" in on: args += ["--encrypt"]
-        args += ["-q", "key.file"]          # the key path is fixed so that a stray key file is seen in the run's own directory
+        # no other flag is ever added: the key file is the default ./anonymongo.enc.key in the run's own directory (cwd), so a stray
+        # key file shows up in the directory snapshot, and the all-absent combination really has an empty command line
         if "regexp" in on: args += ["-z", "^name$"]
         if "names" in on: args += ["-f", sl.NS]
         if "proj" in on: args += ["--atlasProjectId", self.sc.project]
@@ -142,7 +143,7 @@ class Runner:
             if call == "openat":
                 if '"out.log' in rest and "O_CREAT" in rest:
                     add("outCreated")
-                elif '"key.file"' in rest:
+                elif 'anonymongo.enc.key"' in rest:
                     add("keyStage")
                 elif '"in.log"' in rest:
                     add("stream")
@@ -199,7 +200,7 @@ def judge(v, obs, rl, expected_out, preexisting):
             v.violation("an accepted file / stdin job does not produce the redaction of its input: %s" % sig_sw, rep)
         elif got is None or (got.count(b"\n") != expected_out.count(b"\n")):
             v.violation("an accepted file / stdin job does not produce one line per input object line: %s" % sig_sw, rep)
-        if "enc" in on and "key.file" not in obs["new_files"] and not preexisting:
+        if "enc" in on and "anonymongo.enc.key" not in obs["new_files"] and not preexisting:
             v.violation("an accepted --encrypt job stores no key file: %s" % sig_sw, rep)
 
 
